@@ -59,6 +59,14 @@ def special_scenarios():
         evs = [(0, ("made",))] + [(G * (1 + 12 * j), ("call", j)) for j in range(n_before)]          # these complete one by one
         evs += [(G * (1 + 12 * n_before + j), ("call", n_before + j)) for j in range(n_burst)]        # these pile up: one call per tick, one answer per 8 ticks
         out.append({"lifo": False, "mode": False, "cmds": cmds, "events": evs, "plan": [], "default_plan": {"lat": 0, "fail": False, "echo": 8 * G, "rply": None}})
+    # a queued caller gives up (its own timeout) while other commands of mixed priorities wait behind the one in flight: the survivors still start in order
+    def cmd(i, prio, to):
+        return {"kind": "rq30c9", "idx": i, "prio": prio, "max_retries": 0, "timeout": to, "wfr": False}
+    for prios, victim in (((0, 2, 0), 0), ((0, 0, -2), 2), ((2, 0, 0, -2, 2), 3), ((0, 4, 2, 0, -2, 0), 0), ((-2, 0, 2, 0, 4), 1)):
+        cmds = [cmd(0, 0, 20_000_000)] + [cmd(1 + j, p, (6 * G if j == victim else 20_000_000)) for j, p in enumerate(prios)]
+        evs = [(0, ("made",)), (G, ("call", 0))] + [(G * (3 + j), ("call", 1 + j)) for j in range(len(prios))]
+        out.append({"lifo": False, "mode": False, "cmds": cmds, "events": evs, "plan": [{"lat": 0, "fail": False, "echo": None, "rply": None}],
+                    "default_plan": {"lat": 0, "fail": False, "echo": 2 * G, "rply": None}})
     # echo and reply of the command in flight arrive in the SAME loop iteration while another command waits in the buffer; then silence
     for wfr, n in ((True, 2), (True, 3), (False, 2)):
         out.append({"lifo": False, "mode": False,
